@@ -22,6 +22,9 @@ def status_sessions(rnd, thorough):
         calls, script = [{"api": "open"}], []
         for st, ne, mode in combos[i:i + 10]:
             ext = [rnd.choice([0, 1, 0x2105, 0xFFFF, rnd.randint(0, 65535)]) for _ in range(ne)]
+            known = [x for x in se.ext_texts() if x[0] == st]
+            if known and ne:                          # a pair the library has a text for, in its one-word and its two-word form
+                ext = [rnd.choice(known)[1]] + ([0] if ne == 2 else [])
             data = [] if st else [rnd.getrandbits(8) for _ in range(rnd.choice([0, 2, 8]))]
             c, s = S.generic_call(rnd, route, mode=mode, script={"status": st, "ext": ext, "data": data})
             calls.append(c)
